@@ -30,7 +30,6 @@ inductive EStep : St → St → Prop
   | declare (s : St) (n : Name) (v : Value) (i : Instr) (hi : i.declares = some v) (hw : i.writes = none)
       (hl : i.setsLabel = none) (hu : i.usesValue = none) (hfresh : s.innerUsed v.innerName = false) :
       EStep s (((s.insertValue n v).registerInner v.innerName).push i)
-  | setPanic (s : St) (site : Nat) : EStep s (s.setPanic site)
 
 inductive Step : St → St → Prop
   | e {s s' : St} (h : EStep s s') : Step s s'
@@ -46,6 +45,8 @@ inductive Step : St → St → Prop
   | ctlVia (s : St) (k : Nat) (i : Instr) (hw : i.writes = none) (hd : i.declares = none) (hu : i.usesValue = none) :
       Step s (s.pushVia k i)
   | setReturn (s : St) : Step s s.setReturn
+  /-- the documented `expect` on the loop labels -/
+  | setPanic (s : St) (site : Nat) : Step s (s.setPanic site)
 
 inductive ESteps : St → St → Prop
   | refl (s : St) : ESteps s s
@@ -72,6 +73,15 @@ theorem ESteps.toSteps {a b : St} (h : ESteps a b) : Steps a b := by
 
 theorem ESteps.single {a b : St} (h : EStep a b) : ESteps a b := ESteps.tail (ESteps.refl _) h
 theorem Steps.single {a b : St} (h : Step a b) : Steps a b := Steps.tail (Steps.refl _) h
+
+/-- nothing below statement level can panic -/
+theorem EStep.panic_eq {s s' : St} (h : EStep s s') : s'.panic = s.panic := by
+  cases h <;> first | rfl | (unfold St.push St.registerInner St.mapFrames St.insertValue St.mapCur; cases s.inner <;> rfl)
+
+theorem ESteps.panic_eq {s s' : St} (h : ESteps s s') : s'.panic = s.panic := by
+  induction h with
+  | refl => rfl
+  | tail _ st ih => rw [st.panic_eq, ih]
 
 /-- a state transformer all of whose runs are expression-level step chains -/
 def EM {α : Type} (m : St → α × St) : Prop := ∀ s, ESteps s (m s).2
